@@ -1,3 +1,5 @@
+import math
+
 import numpy as np
 import torch
 from torch.nn import functional as F
@@ -99,7 +101,9 @@ def linear_spline(
 
     if inverse:
         outputs = outputs * (right - left) + left
+        logabsdet = logabsdet + math.log(right - left) - math.log(top - bottom)
     else:
         outputs = outputs * (top - bottom) + bottom
+        logabsdet = logabsdet + math.log(top - bottom) - math.log(right - left)
 
     return outputs, logabsdet
